@@ -51,6 +51,7 @@ extern void verif_alloc_track(int) __attribute__((weak));
 static vnacal_t *slot[SLOTS];
 static int cb_count;
 static int cb_last = -1;
+static char cb_message[512];	/* text of the last non-warning message given to the error callback */
 
 static void error_fn(const char *message, void *arg, vnaerr_category_t category)
 {
@@ -60,6 +61,7 @@ static void error_fn(const char *message, void *arg, vnaerr_category_t category)
     if (category != VNAERR_WARNING) {
 	++cb_count;
 	cb_last = (int)category;
+	(void)snprintf(cb_message, sizeof(cb_message), "%s", message);
     }
 }
 
@@ -517,6 +519,11 @@ int main(int argc, char **argv)
 	    printf(" ");
 	    phex(buf);
 	    putchar('\n');
+	} else if (strcmp(op, "msg") == 0) {	/* the last message of the error callback, in hex */
+	    printf("msg ");
+	    for (const unsigned char *p = (const unsigned char *)cb_message; *p != 0; ++p)
+		printf("%02x", *p);
+	    printf("\n");
 	} else if (strcmp(op, "abi") == 0) {
 	    vnacal_t *v = vnacal_create(error_fn, NULL);
 	    int probes[] = { -1, 0, 1, 2, 25, 26, 27, 28, 40, 999, 1000, 1001, 2147483647 };
